@@ -410,7 +410,13 @@ impl Prop for C06 {
                 let spec = CfgSpec::new(*lay, *opts);
                 let prefix: Vec<Ev> = pre.iter().map(|&(c, m)| Ev::Key(kc(c), m, 0xFF)).collect();
                 let cont: Vec<Ev> = "kk:)".chars().map(|c| Ev::Key(kc(c), 0, 0xFF)).chain([Ev::Bs]).collect();
-                let h = Hist { spec, prefix, term, cont };
+                let h = Hist { spec, prefix: prefix.clone(), term, cont };
+                t.histories += 1;
+                out.begin_case(|| hist_json(&h, &files0));
+                check_with_true_fresh(&h, &files0, &root2, out, &mut t);
+                // the same keys once more as the next word (what was learned for a text without any word part - an
+                // emoticon - must be known to a new context as well)
+                let h = Hist { spec, prefix: prefix.clone(), term, cont: prefix.clone() };
                 t.histories += 1;
                 out.begin_case(|| hist_json(&h, &files0));
                 check_with_true_fresh(&h, &files0, &root2, out, &mut t);
